@@ -98,6 +98,7 @@ def main(mod, argv=None):
                     reg.append(json.load(open(os.path.join(rdir, f)))["case"])
                 except Exception:
                     pass
+    reg += engine.known_replays(pid, tier, a.seed)
     nreg = 0
     for payload in reg:
         try:
